@@ -17,12 +17,30 @@ TRUSTED = B.TRUSTED + ["pickle round trips are mapped to copy in the state machi
 ASSUMPTIONS = B.ASSUMPTIONS
 EXPLANATION = ("Theorems (Props/C07.v): cache invariant preserved by every operation; under it every output equals the "
                "history-free answer (generic form with two postings premises; premise-free for every indexed corpus and EVERY "
-               "operation sequence: C07_every_output_is_history_free, C07_repeat_same, C07_history_free). The check runs the state machine against the real objects "
+               "operation sequence: C07_every_output_is_history_free, C07_repeat_same, C07_history_free; running edismax or any dynamic program of queries and selections: "
+               "C07_edismax_is_history_free). The check runs the state machine against the real objects "
                "op by op and re-asks queries under other histories.")
 
 
+SIMS = ["classic", "bm25", "legacy", "user_lennorm", "user_tf", "edismax_classic"]
+
+
+def _make_sim(kind):
+    import numpy as np
+    from searcharray.similarity import classic_similarity, bm25_similarity, bm25_legacy_similarity
+    if kind in ("classic", "edismax_classic"):
+        return classic_similarity()
+    if kind == "bm25":
+        return bm25_similarity(k1=0.9, b=0.4)
+    if kind == "legacy":
+        return bm25_legacy_similarity(k1=1.6, b=0.5)
+    if kind == "user_lennorm":
+        return lambda term_freqs, doc_freqs, doc_lens, avg_doc_lens, num_docs: term_freqs / (1.0 + doc_lens)
+    return lambda term_freqs, doc_freqs, doc_lens, avg_doc_lens, num_docs: np.asarray(term_freqs, dtype=np.float64)
+
+
 def gen_ops(rng, docs, voc, nd, length):
-    ops = []
+    ops = [["lens", 0]]        # asked first and again at the very end: no similarity may touch the stored lengths
     sizes = [nd]          # number of rows of each pool array
     subset = [False]
     for _ in range(length):
@@ -65,11 +83,14 @@ def gen_ops(rng, docs, voc, nd, length):
             ops.append([rng.choice(["copy", "pickle"]), a])
             sizes.append(sizes[a])
             subset.append(subset[a])
-        elif r < 0.95:
+        elif r < 0.93:
             roots = [i for i, s in enumerate(subset) if not s]
             ops.append(["warm", rng.choice(roots)])
-        else:
+        elif r < 0.96:
             ops.append(["edismax", a, [rng.choice(voc) for _ in range(rng.randint(1, 2))]])
+        else:
+            # "queries of any kind with any similarity": built-in non-default and user-defined similarities
+            ops.append(["simscore", a, rng.choice(voc), rng.choice(SIMS)])
     return ops
 
 
@@ -145,6 +166,12 @@ def impl(case):
                 df = pd.DataFrame({"f": arr})
                 s, _ = edismax(df, q=" ".join(K.tok_name(t) for t in op[2]), qf=["f"], pf=["f"])
                 return ["okf", [float(x) for x in s]]
+            if k == "simscore":
+                if op[3] == "edismax_classic":
+                    s, _ = edismax(pd.DataFrame({"f": arr}), q=K.tok_name(op[2]), qf=["f"], similarity=_make_sim(op[3]))
+                else:
+                    s = arr.score(K.tok_name(op[2]), similarity=_make_sim(op[3]))
+                return ["okf", ["nan" if x != x else float(x) for x in s]]
         except Exception as e:     # noqa
             return ["exc", type(e).__name__]
         return ["exc", "unknown-op"]
@@ -184,8 +211,8 @@ def model_req(case):
             ops.append(["score", op[1], op[2], op[3], 4608083138725491507, 4604930618986332160])
         elif k == "pickle":
             ops.append(["copy", op[1]])
-        elif k == "edismax":
-            ops.append(["lens", op[1]])       # placeholder: edismax is exercised on the implementation only
+        elif k in ("edismax", "simscore"):
+            ops.append(["lens", op[1]])       # placeholder: exercised on the implementation only
         else:
             ops.append(list(op))
     n = len(case["docs"])
@@ -197,7 +224,7 @@ def model_decode(case, r):
         return {"modelfault": r}
     outs = []
     for op, v in zip(case["ops"], r[1]):
-        if op[0] == "edismax":
+        if op[0] in ("edismax", "simscore"):
             outs.append(["skip"])
         elif v[0] == "ok":
             val = v[1]
